@@ -222,6 +222,9 @@ pub struct Loaded<'a> {
     cp: Checkpoint,
 }
 impl Loaded<'_> {
+    pub fn restore(&mut self) {
+        self.a.restore_checkpoint(&self.cp);
+    }
     pub fn run<D: Dialect>(&mut self, d: &D, budget: Cost) -> Outcome {
         self.a.clear_validation_caches();
         let o = run_raw(self.a, d, self.p, self.e, budget);
